@@ -4,7 +4,7 @@ set -e
 cd "$(dirname "$0")"
 export GOFLAGS=-mod=mod GOPROXY=off GOSUMDB=off GOTOOLCHAIN=local CGO_ENABLED=0
 # grep gate: nothing forbidden anywhere in the development
-if grep -rnE '\bAdmitted\b|\badmit\b|^\s*(Axiom|Parameter|Conjecture|Hypothesis|Variable)\b.*' coq --include='*.v' | grep -vE 'Section|^[^:]+:[0-9]+:\s*\(\*' | python3 tools/gate_filter.py; then
+if grep -rnE '\bAdmitted\b|\badmit\b|^\s*(Axiom|Parameter|Conjecture|Hypothesis|Variable)\b.*' coq translator --include='*.v' | grep -vE 'Section|^[^:]+:[0-9]+:\s*\(\*' | python3 tools/gate_filter.py; then
   echo "grep gate failed" >&2; exit 1
 fi
 # full .vo build of the whole development; -k so that one broken file cannot take down the checks of
